@@ -4,12 +4,13 @@
    time are processed (never earlier), AND over all histories: the power index is sound in every reachable
    state (App/IndexProofs.v), every unstaking validator is queued under its completion time in every
    reachable state, and EndBlock leaves no unstaking validator whose completion time has been reached
-   (App/QueueProofs.v). Not proved in Coq (oracle c06 on the implementation + correspondence): the
-   converse directions (every staked unjailed validator IS indexed; every queued address IS unstaking),
-   which need injectivity of the keys under range premises. *)
+   and the queue is sound (every queued address is an unstaking validator with that completion time), so
+   EndBlock never releases anybody early (App/QueueProofs.v); the index is also COMPLETE (every staked unjailed
+   validator is indexed under the key of its current stake) for well-formed addresses (App/IndexComplete.v).
+   Oracle-only: the labelled transition relation as such (checked per op on the implementation). *)
 From Coq Require Import List ZArith NArith Bool.
 From PM Require Import Base.Bytes Store.KV Store.MergeProofs Num.IntModel Num.DecModel Num.DecProofs
-  App.Model App.BankProofs App.TxProofs App.KeyProofs App.PosProofs App.IndexProofs App.QueueProofs App.Examples App.Invariants.
+  App.Model App.BankProofs App.TxProofs App.KeyProofs App.PosProofs App.IndexProofs App.IndexComplete App.QueueProofs App.Examples App.Invariants.
 Import ListNotations.
 Local Open Scope Z_scope.
 
@@ -46,6 +47,30 @@ Theorem C06_released_on_time s s' ups b v : queue_ok s -> end_block s = Some (s'
   0 <= btime s < 256 ^ 8 -> get_val s' b = Some v -> v_status v = 1%N -> 0 <= v_unstime v < 256 ^ 8 ->
   btime s < v_unstime v.
 Proof. exact (released_on_time s s' ups b v). Qed.
+(* the power index lists EXACTLY the staked, unjailed validators under the key of their current stake, in every
+   reachable state of every history whose staking addresses are well-formed byte strings *)
+Theorem C06_index_exact_all_histories ops s s' : idx_exact s -> Forall op_wf ops -> run ops s = Some s' -> idx_exact s'.
+Proof. exact (run_exact ops s s'). Qed.
+Theorem C06_index_exact_reading s a v : idx_exact s -> get_val s a = Some v ->
+  (aget (powidx s) (rank_key (v_tokens v) a) = Some a <-> (v_status v = 2%N /\ v_jailed v = false)).
+Proof. exact (index_exact_reading s a v). Qed.
+Theorem C06_genesis_index_exact s0 gvals dao s ups : idx_exact s0 -> NoDup (map g_addr gvals) ->
+  (forall g, In g gvals -> aget (vals s0) (g_addr g) = None) -> (forall g, In g gvals -> wf_bytes (g_addr g)) ->
+  init_chain s0 gvals dao = Some (s, ups) -> idx_exact s.
+Proof. exact (init_chain_exact s0 gvals dao s ups). Qed.
+Example C06_ex_exact_premises : (exists s ups, ex_genesis = Some (s, ups) /\ idx_exact s /\ queue_sound s) /\ Forall op_wf ex_ops.
+Proof. split; [exact ex_genesis_idx_exact|exact ex_ops_wf]. Qed.
+(* the other direction: every queued address is an unstaking validator whose completion time is the slot's,
+   in every reachable state; hence EndBlock never touches an unstaking validator whose time is still ahead *)
+Theorem C06_queue_sound_all_histories ops s s' : queue_sound s -> run ops s = Some s' -> queue_sound s'.
+Proof. exact (run_qs ops s s'). Qed.
+Theorem C06_never_released_early s s' ups b v : queue_sound s -> end_block s = Some (s', ups) ->
+  0 <= btime s < 256 ^ 8 -> get_val s b = Some v -> v_status v = 1%N -> 0 <= v_unstime v < 256 ^ 8 ->
+  btime s < v_unstime v -> get_val s' b = Some v.
+Proof. exact (not_released_early s s' ups b v). Qed.
+Theorem C06_genesis_queue_sound s0 gvals dao s ups : queue_sound s0 -> NoDup (map g_addr gvals) ->
+  (forall g, In g gvals -> aget (vals s0) (g_addr g) = None) -> init_chain s0 gvals dao = Some (s, ups) -> queue_sound s.
+Proof. exact (init_chain_qs s0 gvals dao s ups). Qed.
 Theorem C06_genesis_queue_ok s0 gvals dao s ups : queue_ok s0 -> init_chain s0 gvals dao = Some (s, ups) -> queue_ok s.
 Proof. exact (init_chain_q s0 gvals dao s ups). Qed.
 Example C06_ex_premises : exists s ups, ex_genesis = Some (s, ups) /\ bank_ok s /\ idx_sound s /\ PoolProofs.pool_ok ex_ma s /\ queue_ok s.
@@ -57,3 +82,6 @@ Print Assumptions C06_maturity_never_early.
 Print Assumptions C06_index_sound_all_histories.
 Print Assumptions C06_unstaking_always_queued_all_histories.
 Print Assumptions C06_released_on_time.
+Print Assumptions C06_queue_sound_all_histories.
+Print Assumptions C06_never_released_early.
+Print Assumptions C06_index_exact_all_histories.
